@@ -97,6 +97,22 @@ theorem pop_ok (c : Cols) (n : Nat) (hc : c.lock (n + 1)) :
     simp [hp]
   | fail _ hfail _ _ _ => simp [popOp] at hfail
 
+theorem pop_cases (c : Cols) :
+    Model.pop c = { st := c, isNone := true } ∨
+    ((c.apply2 popOp (c.const [])).panicked = true ∧
+      Model.pop c = { st := (c.apply2 popOp (c.const [])).st, panicked := true,
+                      ev := dropFields (c.apply2 popOp (c.const [])).out }) ∨
+    ((c.apply2 popOp (c.const [])).panicked = false ∧
+      Model.pop c = { st := (c.apply2 popOp (c.const [])).st, ret := some (c.apply2 popOp (c.const [])).out }) := by
+  unfold Model.pop Model.noArgs
+  dsimp only
+  by_cases h0 : c.firstLen = 0
+  · left; simp [h0]
+  · right
+    by_cases hp : (c.apply2 popOp (c.const [])).panicked = true
+    · left; simp [h0, hp]
+    · right; simp [h0, hp]
+
 /-! ## the pop loop of `truncate` / `clear` / `Drop` -/
 
 theorem truncateLoop_ok (dr : Bool) (k : Nat) : ∀ (fuel n : Nat) (c : Cols) (ev : Ev),
